@@ -175,6 +175,7 @@ func (f *Func) redefineInputs(opts ...Arg) (reflect.Type, error) {
 		Type:      structMarkerType,
 		Anonymous: true,
 	})
+	named := map[string]struct{}{}
 	for k, v := range state.InputSet {
 		log.Trace("input", "value", v)
 		if _, ok := inputsProvided[k]; ok {
@@ -183,6 +184,14 @@ func (f *Func) redefineInputs(opts ...Arg) (reflect.Type, error) {
 
 		switch v := v.(type) {
 		case *valueVertex:
+			// Two required inputs with the same name (but a different type
+			// or subtype) can't be represented in a single struct.
+			if _, ok := named[v.Name]; ok {
+				return nil, fmt.Errorf(
+					"redefined function requires more than one input named %q", v.Name)
+			}
+			named[v.Name] = struct{}{}
+
 			sf = append(sf, reflect.StructField{
 				Name: strings.ToUpper(v.Name),
 				Type: v.Type,
